@@ -379,11 +379,15 @@ impl<'jbrd, 'frame, 'meta> JpegBitstreamReconstructor<'jbrd, 'frame, 'meta> {
 
                                 let scale_factor =
                                     factor * (1 << CFL_FIXED_POINT_BITS) / CFL_DEFAULT_COLOR_FACTOR;
+                                // Values of an invalid frame may not fit in 32 bits; wrap them.
                                 let q_scale =
-                                    (q * scale_factor + rounding_const) >> CFL_FIXED_POINT_BITS;
+                                    q.wrapping_mul(scale_factor).wrapping_add(rounding_const)
+                                        >> CFL_FIXED_POINT_BITS;
                                 let cfl_factor =
-                                    (coeff_y * q_scale + rounding_const) >> CFL_FIXED_POINT_BITS;
-                                *coeff.get_mut(x, y) += cfl_factor;
+                                    coeff_y.wrapping_mul(q_scale).wrapping_add(rounding_const)
+                                        >> CFL_FIXED_POINT_BITS;
+                                let coeff = coeff.get_mut(x, y);
+                                *coeff = coeff.wrapping_add(cfl_factor);
                             }
                         }
                     }
